@@ -244,31 +244,47 @@ Definition q_abs (s : qstate) : list N := mem s ++ abs_disk s.
 (* ---- hypotheses ---------------------------------------------------------------------------
    Well-formed client behaviour (the environment): message ids are positive and strictly
    increasing in push order (GenerateSeq); only delivered, unsettled messages are requeued or
-   acknowledged (the channel's unacked map). [outst] = delivered and not yet settled. *)
+   acknowledged (the channel's unacked map), with the flag they were published with. *)
 Fixpoint remove1 (k : N) (l : list N) : list N :=
   match l with
   | [] => []
   | h :: t => if k =? h then t else h :: remove1 k t
   end.
 
-Fixpoint wf_client_from (next : N) (l outst : list N) (ls : list label) : bool :=
-  match ls with
-  | [] => true
-  | lab :: t =>
-    match lab with
-    | Push id _ => (next <=? id) && wf_client_from (id + 1) (l ++ [id]) outst t
-    | Pop => match l with
-             | [] => wf_client_from next l outst t
-             | x :: l' => wf_client_from next l' (x :: outst) t
-             end
-    | Requeue id _ => inb id outst && wf_client_from next (id :: l) (remove1 id outst) t
-    | AckMsg id _ => inb id outst && wf_client_from next l (remove1 id outst) t
-    | Purge => wf_client_from next [] outst t
-    | LoaderTurn | PersistTick _ => wf_client_from next l outst t
-    end
+(* ghost bookkeeping of a run: the next free id, the unlimited list, the delivered-unsettled ids, the ids
+   published as persistent *)
+Record ghost := mkGhost { g_next : N; g_list : list N; g_outst : list N; g_pers : list N }.
+
+Definition ghost_init : ghost := mkGhost 1 [] [] [].
+
+Definition ghost_step (g : ghost) (lab : label) : ghost :=
+  match lab with
+  | Push id p => mkGhost (id + 1) (g_list g ++ [id]) (g_outst g) (if p then id :: g_pers g else g_pers g)
+  | Pop => match g_list g with
+           | [] => g
+           | x :: l' => mkGhost (g_next g) l' (x :: g_outst g) (g_pers g)
+           end
+  | Requeue id _ => mkGhost (g_next g) (id :: g_list g) (remove1 id (g_outst g)) (g_pers g)
+  | AckMsg id _ => mkGhost (g_next g) (g_list g) (remove1 id (g_outst g)) (g_pers g)
+  | Purge => mkGhost (g_next g) [] (g_outst g) (g_pers g)
+  | LoaderTurn | PersistTick _ => g
   end.
 
-Definition wf_client (ls : list label) : bool := wf_client_from 1 [] [] ls.
+(* a message is settled with the persistence flag it was published with (it is the same message) *)
+Definition wf_step (g : ghost) (lab : label) : bool :=
+  match lab with
+  | Push id _ => g_next g <=? id
+  | Requeue id p | AckMsg id p => inb id (g_outst g) && Bool.eqb p (inb id (g_pers g))
+  | _ => true
+  end.
+
+Fixpoint wf_client_from (g : ghost) (ls : list label) : bool :=
+  match ls with
+  | [] => true
+  | lab :: t => wf_step g lab && wf_client_from (ghost_step g lab) t
+  end.
+
+Definition wf_client (ls : list label) : bool := wf_client_from ghost_init ls.
 
 (* The triggers of the open findings, as decidable predicates on (configuration, label list):
    they are evaluated along the run of the model.
